@@ -244,6 +244,10 @@ StringDictionaryHASHHF::StringDictionaryHASHHF(IteratorDictString *it, uint len,
   delete it;
   delete[] tmp;
 
+  // Three more bytes are appended (and saved) after the last string
+  while ((bytesStrings + 3) > reservedStrings)
+    reservedStrings = Reallocate(&textStrings, reservedStrings);
+
   textStrings[bytesStrings] = 0;
   bytesStrings++;
   textStrings[bytesStrings] = 0;
